@@ -85,6 +85,8 @@ def run(F, rep):
     rep.rule('C11.D1', 'every entity-typed argument handed to the copy is a clone()/create() result or belongs to the copy; no shared_ptr obtained from the original is shared')
     rep.rule('C11.E1', 'Model::clone re-creates variable equivalences through an API that carries mapping and connection ids')
     rep.rule('C11.P1', 'clone() never gives the copy a parent')
+    rep.rule('C11.Q1', 'what doEquals() compares on this side is what clone() copies: no doEquals reads (directly or through the getters it calls on this object) a field that clone() deliberately leaves out of the copy')
+    n_q1 = [0]
     for cls in CLASSES:
         f = clone_fn(F, cls)
         cv = copy_var(f)
@@ -109,6 +111,22 @@ def run(F, rep):
                 continue
             rep.check(fname in reads, 'C11.R1', k, f.where(), '%s::clone never reads %s::%s of the original, so the copy cannot reproduce it' % (cls, owner.split('::')[-1], fname), 'read')
             rep.check(fname in writes, 'C11.W1', k, f.where(), '%s::clone never writes %s on the copy (fields written through the copy\'s methods: %s)' % (cls, fname, sorted(writes)), 'written')
+        # Q1: "the clone equals the original": doEquals of the class must not look at anything clone() deliberately leaves out (excluded fields such as a lone
+        # variable's equivalences or the parent): a comparison of such a field makes every clone of an object that has it differ from its original
+        try:
+            import c10 as _c10
+            de = _c10.do_equals(F, cls) if cls in _c10.CLASSES else None
+        except Exception:
+            de = None
+        if de is not None:
+            eq_reads = fields.this_reads(F, de)
+            own_names = {fn_ for fn_, ow_, fj_ in allf}
+            for fname in sorted(eq_reads & own_names):
+                if fname in ('mPimpl',):
+                    continue
+                n_q1[0] += 1
+                rep.check(fname in writes or fname not in excl, 'C11.Q1', '%s::doEquals|%s' % (cls, fname), de.where(),
+                          '%s::doEquals looks at %s, which %s::clone() does not copy (%s): a clone of an object that has it no longer equals its original' % (cls, fname, cls, excl.get(fname, '')), 'copied by clone()' if fname in writes else 'not excluded from the copy')
         # deep copy discipline
         for n in copy_calls:
             for i, a in enumerate(n['c'][1:]):
@@ -264,6 +282,9 @@ def run(F, rep):
 
     # ------------------------------------------------------------------ W: walks over the component tree are complete
     import recursion as _recw
+    if n_q1[0] < 15:
+        raise AnalysisBroken('C11.Q1: only %d fields read by the doEquals methods of the cloneable classes (15 confirmed)' % n_q1[0])
+    _recw.rule_stack_discipline(F, rep, 'C11.K1', lambda g_: g_.name in ('recordVariableEquivalences', 'generateEquivalenceMap', 'indexStackOf', 'clone') and '/src/' in g_.file, 2, 'the equivalence map Model::clone() rebuilds the connections from')
     _recw.rule_walkers(F, rep, 'C11.W2', ['clone', 'fixComponentUnits', 'generateEquivalenceMap'], 3, 'copying components, their units links and equivalences')
 
     # ------------------------------------------------------------------ clause shared with C09: Model::clone re-creates equivalences only for variables whose component reports the model as owner
